@@ -88,6 +88,9 @@ def walk(c, rep, prop, cfg):
             if kind == 'urev': off = C.prod(v['e']) - 1 - off
             addr = v['h'] + off + (1000 if acc == 'sh' else 0)
             d = dict(x.split('=') for x in seg.split()) if seg.startswith('a=') else {}
+            if prop == 'C03' and acc == 'sf':
+                if seg != 'a=self': return bad('access-is-not-accessor().access(...)-of-the-view-itself (result designates an object outside the view\'s accessor)', cmd=cmd, got=seg, form=a[2])
+                continue
             if prop == 'C03':
                 if 'a' not in d: return bad('access-form-unavailable-or-undefined', cmd=cmd, got=seg)
                 if int(d['a']) != addr: return bad('access-designates-another-element-than-data_handle()[mapping()(idx)]', cmd=cmd, got=int(d['a']), specified=addr, form=a[2], index_type=a[3])
